@@ -229,20 +229,55 @@ func (w *c07World) combine(call c07Call, real task.Task) (string, string) {
 		})
 	}()
 	out := ""
+	// One of the concurrent appends is held back and attempted while Filter is walking the queue
+	// (yield point inside the queue lock): it must wait for Filter and land behind its result.
+	var hold *c07Task
+	holdQ := -1
+	holdDone := make(chan struct{})
+	reached := false
 	for out == "" {
 		select {
 		case a := <-arrive:
-			if a.Name == "combine.afterIterate" {
+			switch a.Name {
+			case "combine.afterIterate":
+				reached = true
 				for _, n := range call.AppOrd {
-					for _, t := range call.Apps[n] {
+					ts := call.Apps[n]
+					if hold == nil && w.qname(n) == key && len(ts) > 0 && n == call.AppOrd[len(call.AppOrd)-1] {
+						h := ts[len(ts)-1]
+						hold, holdQ = &h, n
+						ts = ts[:len(ts)-1]
+					}
+					for _, t := range ts {
 						w.tqs.GetByName(w.qname(n)).AddLast(w.mkTask(t))
 					}
+				}
+			case "queue.filter.locked":
+				if hold != nil && holdQ >= 0 {
+					q, t := w.tqs.GetByName(w.qname(holdQ)), w.mkTask(*hold)
+					holdQ = -1
+					go func() { defer close(holdDone); q.AddLast(t) }()
+					time.Sleep(25 * time.Millisecond)
 				}
 			}
 			a.Release()
 		case out = <-done:
 		case <-time.After(20 * time.Second):
 			out = "hang"
+		}
+	}
+	if hold != nil && out != "hang" {
+		if holdQ >= 0 {
+			// Filter was not reached (nothing to merge): the held task is appended now
+			if reached {
+				w.tqs.GetByName(w.qname(holdQ)).AddLast(w.mkTask(*hold))
+			}
+		} else {
+			select {
+			case <-holdDone:
+			case <-time.After(10 * time.Second):
+				out = "hang"
+			}
 		}
 	}
 	if out == "panic" {
